@@ -58,7 +58,7 @@ def make_cfg(seed, i):
     xin = z + 0.5 * margin * rng.normal(size=n) / np.sqrt(n) * r()
     if u < 0.3:
         x0 = xin
-    elif u < 0.65:
+    elif u < 0.55:
         # on the boundary, then pushed outside by 1e-9..1e-3 relative (the window np.allclose used to hide)
         far = z + 10 * margin * rng.normal(size=n)
         xb = far.copy()
@@ -77,6 +77,11 @@ def make_cfg(seed, i):
         up["dykstra.d_tol"] = float(gen.pick(rng, [1e-8, 1e-10, 1e-12]))
     if r() < 0.5:
         up["dykstra.max_iters"] = int(gen.pick(rng, [20, 100, 500]))
+    if r() < 0.3:
+        up["regression.num_extra_steps"] = int(rng.integers(1, 3))
+        if r() < 0.6:
+            up["regression.momentum_extra_steps"] = True
+        cfg["args"]["maxfun"] = 30
     if r() < 0.35:
         up["restarts.use_restarts"] = True
         if r() < 0.5:
@@ -138,6 +143,21 @@ def run_case(case):
                     float(np.max(np.abs(solver_calls[0]["out"] - x))),
                     max(gen.set_distance(s, np.array(cfg["x0"])) for s in cfg["proj"])), x=x, projected=solver_calls[0]["out"], x0=cfg["x0"]))
             rec = rec or (solver_calls[0] if solver_calls else None)
+            # independent reference: the same algorithm in the harness with the CONFIGURED tolerance and sweep cap. If it meets its
+            # stopping rule, "x0 is replaced by its projection" means the first evaluation is within sqrt(p*tol) of every set
+            d_tol = (cfg.get("user_params") or {}).get("dykstra.d_tol", 1e-10)
+            d_mi = (cfg.get("user_params") or {}).get("dykstra.max_iters", 100)
+            Pall = [gen.make_projection(s_) for s_ in cfg["proj"]] + [lambda w: np.minimum(np.maximum(w, np.where(np.isfinite(b.lo), b.lo, -1e20)),
+                                                                                       np.where(np.isfinite(b.hi), b.hi, 1e20))]
+            xr, sweeps_r = harness_dykstra(Pall, np.array(cfg["x0"], dtype=float), d_mi, d_tol)
+            if sweeps_r < d_mi:
+                st["x0_reference_projection_converged"] = st.get("x0_reference_projection_converged", 0) + 1
+                lim0 = np.sqrt(len(Pall) * d_tol) * (1 + 1e-9)
+                dist0 = max(float(np.linalg.norm(x - q(x))) for q in Pall)
+                if dist0 > lim0:
+                    viol.append(V("first-evaluation-not-the-projection-of-x0", "a reference Dykstra with the configured tolerance %.0e meets its stopping rule "
+                                  "after %d sweeps, but the first evaluation is %.3g from a set (> sqrt(p*tol) = %.3g)" % (d_tol, sweeps_r, dist0, lim0),
+                                  x=x, x0=cfg["x0"], dist=dist0))
         if rec is None:
             if len(viol) < 6:
                 viol.append(V("evaluated-point-not-a-projection-output", "call %d: x is not the output of any logged projection call" % k, x=x, call=k))
@@ -174,6 +194,26 @@ def run_case(case):
                              dykstra_calls=counts, evaluations_on_boundary=on_boundary,
                              msg=getattr(run.soln, "msg", None), exc=repr(run.exc) if run.exc else None)
     return res
+
+
+def harness_dykstra(P, x0, max_iter, tol):
+    """Dykstra's algorithm with the library's stopping quantity (sum of squared changes of the correction vectors), written
+    independently in the harness. Returns (x, sweeps)."""
+    x = np.array(x0, dtype=float)
+    y = [np.zeros_like(x) for _ in P]
+    n = 0
+    cI = np.inf
+    while n < max_iter and cI >= tol:
+        cI = 0.0
+        for i, proj in enumerate(P):
+            z = x - y[i]
+            xn = proj(z)
+            ynew = xn - z
+            cI += float(np.sum((y[i] - ynew) ** 2))
+            y[i] = ynew
+            x = xn
+        n += 1
+    return x, n
 
 
 def _bdist(s, x):
